@@ -53,6 +53,8 @@ def main(argv):
         shards = mod.shards(tier, seed)
         results = core.run_pool(mod.__name__, shards, tier, seed)
         merged = core.merge(results)
+        if hasattr(mod, 'post'):
+            mod.post(merged, tier)
         extra = mod.extra(merged, tier) if hasattr(mod, 'extra') else None
         code = core.finish(prop, tier, seed, merged, rule=mod.RULE, assumptions=mod.ASSUMPTIONS, t0=t0,
                            exhaustive=getattr(mod, 'EXHAUSTIVE', {}).get(tier), extra=extra)
